@@ -15,6 +15,7 @@ import ast as pyast
 import json
 import os
 import random
+import re
 import sys
 from collections import Counter
 from concurrent.futures import ThreadPoolExecutor
@@ -264,7 +265,7 @@ def catalogue_files():
     return files
 
 
-def documented_members(rel: str):
+def documented_members(rel: str, symbols: bool = False):
     """The library's own way of obtaining what the documentation shows (docs/build.py::_process_law)."""
     import symplyphysics
     from symplyphysics.docs.patch import patch_sympy_evaluate
@@ -280,7 +281,32 @@ def documented_members(rel: str):
         members, _ = find_members_and_functions(tree)
     finally:
         reset_sympy_evaluation()
+    if symbols:     # (equations and expressions shown as formulas, documented symbol members)
+        return ([m for m in members if m.directives and not m.name.startswith("_")],
+                [m for m in members if not m.directives and not m.name.startswith("_")])
     return [m for m in members if m.directives and not m.name.startswith("_")]
+
+
+def bare_function_names(value, text: str) -> list:
+    """'Symbols appear under their display names' for a documented bare function symbol f(g, t) whose declared arguments
+    include function symbols: the rendering must not show such an argument under its internal unique name (FUN<n>)
+    when its display name is a different one.  -> [[display name, rendered text]]"""
+    from sympy.core.function import FunctionClass
+    args = getattr(value, "arguments", None)
+    if not isinstance(value, FunctionClass) or not args:
+        return []
+    bad = []
+    for arg in args:
+        internal, display = str(getattr(arg, "name", "")), str(getattr(arg, "display_name", ""))
+        if not isinstance(arg, FunctionClass) or not internal or not display or internal == display:
+            continue
+        m = re.fullmatch(r"([A-Za-z]+)(\d+)", internal)
+        if not m or m.group(1) in display:
+            continue
+        pat = rf"(?<![A-Za-z0-9]){m.group(1)}(_?\{{?){m.group(2)}(?!\d)"
+        if re.search(pat, text):
+            bad.append([display, text])
+    return bad
 
 
 def render_module(rel: str):
@@ -290,11 +316,23 @@ def render_module(rel: str):
     results = []
     try:
         with time_limit(120):
-            members = documented_members(rel)
+            members, symbol_members = documented_members(rel, symbols=True)
     except HardTimeout:
         return [dict(key=rel, status="outside", why="module execution timed out")]
     except Exception as ex:  # pylint: disable=broad-except
         return [dict(key=rel, status="outside", why=f"module does not execute in documentation mode: {type(ex).__name__}")]
+    for m in symbol_members:    # documented bare function symbols: the display-name clause only
+        try:
+            if not getattr(m.value, "arguments", None):
+                continue
+            with time_limit(20):
+                text = _ENV["render"](m.value)
+            fbad = bare_function_names(m.value, text)
+        except Exception:  # pylint: disable=broad-except
+            continue        # not renderable on its own: nothing to compare
+        if fbad:
+            results.append(dict(key=f"{rel}:{m.name}:function", status="outside", why="tree: bare function symbol", text=text,
+                                file=rel, member=m.name, side="function", badnames=fbad))
     for m in members:
         key = f"{rel}:{m.name}"
         value = m.value
